@@ -884,6 +884,19 @@ class Engine:
             return V(ot, z3.If(has, ot.some(val.t), ot.none()))
         raise OutOfSubset(f'.get on {recv.ty}')
 
+    def meth_split(self, recv, n, ctx, ev):
+        """s.split(sep) as a value: SPLIT(s, sep), a non-empty list of texts -- a function of (s, sep) (LC-SPLIT); the indexed forms
+        s.split(sep)[0] / [1] are modelled exactly elsewhere (Evaluator.split_index)"""
+        if recv.ty == STR and len(n.args) == 1:
+            sep = ev.ev(n.args[0], ctx)
+            if sep.ty == STR:
+                lt = TList(STR)
+                r = z3.Function('str_split', z3.StringSort(), z3.StringSort(), lt.sort())(recv.t, sep.t)
+                ctx.assume(lt.n(r) >= 1)
+                self.libs_used.add('LC-SPLIT: s.split(sep) is a non-empty list of texts, a function of (s, sep)')
+                return V(lt, r)
+        raise OutOfSubset(f'.split on {recv.ty}')
+
     def meth_count(self, recv, n, ctx, ev):
         if recv.ty == STR and len(n.args) == 1:
             x = ev.ev(n.args[0], ctx)
@@ -982,6 +995,8 @@ class Engine:
             if isinstance(ty, TOpt):
                 return V(BOOL, z3.And(z3.Not(ty.is_none(v.t)), z3.BoolVal(ty.inner == table[tn])))
             return mk_bool(ty == table[tn] or (tn == 'int' and ty == BOOL))
+        if v.ty in (INT, REAL, STR, BOOL) and tn not in table and tn not in ('List', 'list') and tn[:1].isupper():
+            return mk_bool(False)          # a number / a text is not an instance of a class
         if tn in ('List', 'list'):
             if isinstance(v.ty, TOpt) and isinstance(v.ty.inner, (TList, TBag)):
                 return V(BOOL, z3.Not(v.ty.is_none(v.t)))
